@@ -16,16 +16,25 @@ Oracle (independent of the model) = the property itself, metamorphically on the 
   names one entity (framer, frame or actor) and a fresh name; the program / skeleton is rebuilt with that
   entity renamed consistently; every resolved path of the renamed build must equal the original path with
   exactly the segments that spell the old name replaced (literal path segments never use entity names),
-  and must be identical when the reference is absolute.
+  and must be identical when the reference is absolute; distinct actor names (differing by a digit or an
+  underscore part) must resolve to distinct paths wherever the path goes through the actor's name.
 """
 import json, re
 import core, flob
 
-FRAMERS = ["alpha", "bravo", "carol", "delta"]
-FRAMES = ["fone", "ftwo", "ftri", "ffor", "ffiv", "fsix", "fsev", "feig", "fnin", "ften", "felv", "ftwl", "fthr"]
+# names: plain words, digits, underscores, camel humps, and names that merely extend a keyword
+FRAMERS = ["alpha", "bravo", "carol", "delta", "mainloop", "meter", "framerate", "b2", "my_f", "actor1", "eCho"]
+FRAMES = ["fone", "ftwo", "ftri", "ffor", "ffiv", "fsix", "fsev", "feig", "fnin", "ften", "felv", "ftwl", "fthr",
+          "mainly", "main2", "me2", "frame9", "f_x", "actorly", "framer3", "gUp"]
 LITS = ["x", "y", "val", "pos", "s1", "deep", "q"]
-APARTS = ["do", "it", "run", "fast", "zed", "go"]
-NEW = {"framer": "zqx", "frame": "wvu", "actor": ["kj", "hg"]}
+APARTS = ["do", "it", "run", "fast", "zed", "go", "pump2", "my_v", "x9", "mainer"]
+NEW = {"framer": ["zqx", "zq_7", "mainframe9", "meZ"], "frame": ["wvu", "wv_2", "mainstay", "me7"],
+       "actor": ["KjHg", "KjH2", "Valve7", "K_j"]}
+
+
+def name_parts(name):
+    """the `as` clause tokens that build this actor name: `as kj h2` -> KjH2"""
+    return [p[0].lower() + p[1:] for p in re.findall(r"[A-Z][^A-Z]*", name)]
 
 
 # ----------------------------------------------------------------------------- reference clauses (AST)
@@ -58,10 +67,18 @@ def rename_rel(rel, kind, old, new):
     return r
 
 
+def rename_path(path, kind, old, new):
+    """an inline relation in the path token (`frame.NAME.x`, `framer.NAME.x`, `actor.NAME.x`) names an entity"""
+    ch = path.split(".")
+    if len(ch) >= 2 and ch[0] == kind and ch[1] == old:
+        ch[1] = new
+    return ".".join(ch)
+
+
 def rename_ref(ref, kind, old, new):
     if ref is None:
         return None
-    return {"path": ref["path"], "rel": rename_rel(ref["rel"], kind, old, new)}
+    return {"path": rename_path(ref["path"], kind, old, new), "rel": rename_rel(ref["rel"], kind, old, new)}
 
 
 def actor_name(parts):
@@ -110,8 +127,13 @@ def gen_path(rng, node, names=None, absolute_ok=True, main_ok=True, inline_ok=Tr
     if r < 0.15 and absolute_ok:
         p = "." + ".".join(segs)
     elif r < 0.3 and inline_ok:
-        head = rng.choice(["frame.me", "frame.main", "actor.me", "framer.me", "framer.main", "me"] if main_ok else
-                          ["frame.me", "actor.me", "framer.me", "me"])
+        heads = (["frame.me", "frame.main", "actor.me", "framer.me", "framer.main", "me"] if main_ok else
+                 ["frame.me", "actor.me", "framer.me", "me"])
+        if names:                       # inline relation with an explicit entity name, no `of` clause
+            heads = heads + ["frame." + rng.choice(names["frame"]), "frame." + rng.choice(names["frame"]),
+                             "framer." + rng.choice(names["framer"])] + \
+                (["actor." + rng.choice(names["actor"])] if names["actor"] else [])
+        head = rng.choice(heads)
         p = head + "." + ".".join(segs)
     else:
         p = ".".join(segs)
@@ -124,9 +146,9 @@ def gen_ref(rng, node, names, safe=False, main_ok=True, unique=False):
     """safe: forms that parse and resolve inside a program (no inline relation together with a clause,
     `main` only where a main exists)"""
     if not safe:
-        return {"path": gen_path(rng, node), "rel": gen_rel(rng, 3, names) if rng.random() < 0.7 else None}
-    if rng.random() < 0.25:
-        return {"path": gen_path(rng, node, main_ok=main_ok, unique=unique), "rel": None}
+        return {"path": gen_path(rng, node, names=names), "rel": gen_rel(rng, 3, names) if rng.random() < 0.7 else None}
+    if rng.random() < 0.3:
+        return {"path": gen_path(rng, node, names=names, main_ok=main_ok, unique=unique), "rel": None}
     return {"path": gen_path(rng, node, main_ok=main_ok, inline_ok=False, unique=unique),
             "rel": gen_rel(rng, 3, names, main_ok) if rng.random() < 0.8 else None}
 
@@ -175,7 +197,16 @@ def documented(ref):
     if path.startswith("."):
         return ".".join(relparts) + path if relparts else path
     if chunks[0] in ("framer", "frame", "actor", "me"):
-        return None                      # inline relation in the path token: conflict rules, not the plain table
+        if relparts:
+            return None                  # inline relation together with a clause: the conflict rules
+        # inline relation alone: the missing outer relations are implied (`frame.main` lives in `framer main`)
+        if chunks[0] == "frame" and len(chunks) >= 3:
+            return ".".join(["framer", "main" if chunks[1] == "main" else "me"] + chunks)
+        if chunks[0] == "actor" and len(chunks) >= 3:
+            return ".".join(["framer", "me", "frame", "me"] + chunks)
+        if chunks[0] in ("framer", "me"):
+            return path
+        return None
     return ".".join(relparts + chunks)
 
 
@@ -184,8 +215,10 @@ def documented(ref):
 def gen_skeleton(rng, with_acts):
     _leaf[0] = 0
     nfr = rng.choice([1, 2, 3, 3, 4])
-    names = {"framer": FRAMERS[:nfr], "frame": [], "actor": []}
+    frs = rng.sample(FRAMERS, nfr)
+    names = {"framer": list(frs), "frame": [], "actor": []}
     fpool = list(FRAMES)
+    rng.shuffle(fpool)
     framers = []
     for i in range(nfr):
         nf = rng.choice([1, 2, 2, 3])
@@ -197,7 +230,7 @@ def gen_skeleton(rng, with_acts):
             names["frame"].append(nm)
             frames.append({"name": nm, "over": rng.choice([None] + [f["name"] for f in frames]) if frames else None,
                            "via": None, "acts": [], "clones": []})
-        framers.append({"name": FRAMERS[i], "sched": "active" if i == 0 else rng.choice(["aux", "aux", "active"]),
+        framers.append({"name": frs[i], "sched": "active" if i == 0 else rng.choice(["aux", "aux", "active"]),
                         "via": None, "frames": frames})
     nact = rng.choice([1, 2, 3])
     acts = []
@@ -332,9 +365,9 @@ def rename_prog(prog, kind, old, new):
                 else:
                     a["via"] = rename_ref(a["via"], kind, old, new)
                     if kind == "actor" and a["as"] is not None and actor_name(a["as"]) == old:
-                        a["as"] = list(NEW["actor"])
+                        a["as"] = name_parts(new)
     if kind == "actor":
-        p["actors"] = [list(NEW["actor"]) if actor_name(x) == old else x for x in p["actors"]]
+        p["actors"] = [name_parts(new) if actor_name(x) == old else x for x in p["actors"]]
     return p
 
 
@@ -357,11 +390,11 @@ def actor_parts(name):
 def replace_name(path, kind, old, new):
     """exactly the segments that spell the old name"""
     segs = path.split(".")
-    if kind in ("framer", "frame"):
-        out = []
-        for s in segs:
-            out.append("_".join(new if piece == old else piece for piece in s.split("_")) if s else s)
-        return ".".join(out)
+    if kind == "frame":
+        return ".".join(new if s == old else s for s in segs)
+    if kind == "framer":
+        # a clone of a moot framer is named <surname of its main framer>_<tag>
+        return ".".join(new if s == old else new + s[len(old):] if s.startswith(old + "_cl") else s for s in segs)
     o, n = actor_parts(old), actor_parts(new)
     out, i = [], 0
     while i < len(segs):
@@ -532,6 +565,12 @@ def framer_rows(prog, sk, fr, realname):
     return rows
 
 
+def no_inode_context(frame):
+    frames, fname, finode, mains = raw_ctx(frame)
+    return (not finode and all(not i for _, i in frames)
+            and all(not mi and all(not i for _, i in chain) for chain, _, mi in mains))
+
+
 def norm(name):
     """store location of a share / node name"""
     return name.strip(".")
@@ -546,7 +585,8 @@ class CHECK(core.Check):
     N_QUICK = 400
     N_THOROUGH = 12000
     N_SEARCH = 1500
-    RULE = ("three case kinds from one rng: 40% `res` (skeleton of 1-4 framers x 1-3 nested frames with random `via` "
+    RULE = ("names of framers / frames / actors and the fresh names come from pools with digits, underscores, camel humps and "
+            "keyword extensions (mainloop, meter, framerate, me2, actor1, Pump2, My_v); three case kinds from one rng: 40% `res` (skeleton of 1-4 framers x 1-3 nested frames with random `via` "
             "inodes built by the real Builder, random main links, act inode None/''/path, actor name, ipath over all "
             "keyword heads x literal tails x trailing dot, absolute paths that contain entity names; one entity renamed), "
             "35% `parse` (clause tokens from the clause grammar incl. inline relations, me/main/root, nested of-clauses, "
@@ -596,7 +636,7 @@ class CHECK(core.Check):
         kinds = [k for k in ("framer", "frame", "actor") if [n for n in names[k] if n != "mike"]]
         kind = rng.choice(kinds)
         old = rng.choice([n for n in names[kind] if n != "mike"])
-        new = NEW[kind] if kind != "actor" else actor_name(NEW["actor"])
+        new = rng.choice(NEW[kind])
         return [kind, old, new]
 
     def gen_res(self, rng):
@@ -614,7 +654,7 @@ class CHECK(core.Check):
                             gen_ipath(rng, None, no_names=True)])
         if inode == ".":
             inode = "q."
-        actor = rng.choice(names["actor"] + [None, "lower", "XRay", "aB"])
+        actor = rng.choice(names["actor"] + [None, "lower", "XRay", "aB", "Pump2", "my_pump", "aB3c", "X_1Y", "pump1"])
         ipath = gen_ipath(rng, None)
         return {"kind": "res", "prog": prog, "mains": mains, "at": [fi, fj], "inode": inode, "actor": actor,
                 "ipath": ipath, "rename": ren}
@@ -654,7 +694,9 @@ class CHECK(core.Check):
                     for up in ([None, ["framer", "alpha"], ["frame", None, None], ["frame", "fone", ["framer", "alpha"]],
                                 ["frame", "main", None], ["me"], ["actor", None, None]]):
                         yield ["actor", n, up]
-        paths = ["x", "x.y", ".x.y", "frame.me.x", "actor.me.x", "framer.me.x", "frame.x", "me.x"] + (["x.", ".x."] if tier == "thorough" else [])
+        paths = ["x", "x.y", ".x.y", "frame.me.x", "actor.me.x", "framer.me.x", "frame.x", "me.x",
+                 "frame.main.x", "frame.mainloop.x", "frame.me2.x", "framer.meter.x", "actor.Pump2.x"] + \
+            (["x.", ".x."] if tier == "thorough" else [])
         for p in paths:
             for rel in rels(3):
                 for node in ((0, 1) if tier == "thorough" else (0,)):
@@ -776,7 +818,19 @@ class CHECK(core.Check):
                 return "skeleton no longer builds after renaming %s %s" % (kind, old)
             actor2 = new if (kind == "actor" and case["actor"] == old) else case["actor"]
             out2 = call_resolve(frame2, actor2, case["inode"], case["ipath"])
-            return self.compare(case["ipath"].startswith("."), out[0], out2, kind, old, new, "ipath %r" % case["ipath"])
+            why = self.compare(case["ipath"].startswith("."), out[0], out2, kind, old, new, "ipath %r" % case["ipath"])
+            if why:
+                return why
+            # distinct names give distinct paths: when the path goes through the actor's name at all, an actor
+            # whose name differs only by a digit / an underscore part must not land on the same path
+            a = case["actor"]
+            if a is not None and not out[0].startswith("ERR"):
+                frame1 = res_setup(case, case["prog"])
+                if call_resolve(frame1, "Qq", case["inode"], case["ipath"]) != out[0]:
+                    for alt in (a + "2" if not a.endswith("2") else a + "3", a + "_b", a[:-1] if len(a) > 1 and a[-1].isdigit() else a + "7"):
+                        if alt != a and call_resolve(frame1, alt, case["inode"], case["ipath"]) == out[0]:
+                            return "ipath %r: actors %r and %r resolve to the same path %r" % (case["ipath"], a, alt, out[0])
+            return None
         if out and out[0].startswith("ERR build"):
             return None
         sk2 = built(prog2)
@@ -786,6 +840,15 @@ class CHECK(core.Check):
         rows1 = prog_refs(case["prog"], built(case["prog"]))
         if len(rows2) != len(out):
             return "renamed build has %d references, original %d" % (len(rows2), len(out))
+        seen = {}
+        for r in rows1:                                  # two actors of one frame must never collapse
+            # (acts without any inode context: no `via` on the act, its frames, its framer or its main chain,
+            # where the documented default inode framer.me.frame.me.actor.me applies)
+            if r[0] == "do.inode" and r[3] == "" and no_inode_context(r[1]):
+                key = (r[1].framer.name, r[1].name, r[3])
+                other = seen.setdefault(key, {}).setdefault(norm(r[6]), r[2])
+                if other != r[2]:
+                    return "actors %r and %r of frame %s share the inode %r" % (other, r[2], r[1].name, norm(r[6]))
         for line, r1, r2 in zip(out, rows1, rows2):
             d, name = line.split(" ", 1) if " " in line else (line, "")
             if isinstance(r1[4], str):
